@@ -305,7 +305,9 @@ def _bounded_islice(ctx, fi, call):
     return None
 
 
-def r13_no_materialise(ctx, rule='R13'):
+def r13_no_materialise(ctx, rule='R13', min_level=1):
+    """min_level=2 restricts the rule to the iterator of *resources* (used by C01: a step that advances the upstream resource
+    iterator past the resource it is delivering changes the interleaving with upstream steps)."""
     run = ctx.run
     run.rule(rule, 'NO-MATERIALISE: no upstream row / resource stream of a non-buffering step reaches a materialising sink '
                    '(list, tuple, set, dict, sorted, reversed, len, sum, max, min, any, all, comprehension into a container, '
@@ -338,6 +340,8 @@ def r13_no_materialise(ctx, rule='R13'):
                 n_sites += 1
                 if en in MATERIALISERS or (isinstance(n.func, ast.Attribute) and n.func.attr == 'join'
                                            and isinstance(n.func.value, ast.Constant)):
+                    if max(lv) < min_level:
+                        continue
                     if en == 'builtins.list':
                         b = _bounded_islice(ctx, f, n)
                         if b is not None:
@@ -348,6 +352,8 @@ def r13_no_materialise(ctx, rule='R13'):
                              % (max(lv), en or 'str.join'))
                     continue
                 if en == 'collections.deque':
+                    if max(lv or [0]) < min_level:
+                        continue
                     drain = any(k.arg == 'maxlen' and _const(k.value) == 0 for k in n.keywords) or \
                         (len(n.args) > 1 and _const(n.args[1]) == 0)
                     # draining reads ahead of nothing downstream: it discards, memory stays constant
@@ -363,17 +369,17 @@ def r13_no_materialise(ctx, rule='R13'):
                 run.ok(rule, where(ctx.repo, n), f.qualname + ': ' + u(n)[:120], 'repository call (followed)')
             elif isinstance(n, (ast.ListComp, ast.SetComp, ast.DictComp)):
                 lv = L.level(f, n.generators[0].iter)
-                if lv:
+                if lv and lv >= min_level:
                     n_sites += 1
                     run.fail(rule, where(ctx.repo, n), f.qualname, n,
                              'a comprehension collects an upstream stream (level %d) into a container' % lv)
             elif isinstance(n, ast.Starred) and isinstance(n.ctx, ast.Load):
                 lv = L.level(f, n.value)
-                if lv:
+                if lv and lv >= min_level:
                     n_sites += 1
                     run.fail(rule, where(ctx.repo, n), f.qualname, n, 'a stream is unpacked with * (materialised)')
         # next() on an upstream stream inside an unbounded loop whose result is kept (or that never yields)
-        if not isinstance(f.node, ast.Lambda):
+        if not isinstance(f.node, ast.Lambda) and min_level <= 1:
             facts_n = Facts(f, include_nested=False)
             for lp in [x for x in own_nodes(f.node) if isinstance(x, (ast.While, ast.For, ast.AsyncFor))]:
                 bounded = isinstance(lp, ast.For) and isinstance(lp.iter, ast.Call) and \
@@ -404,7 +410,7 @@ def r13_no_materialise(ctx, rule='R13'):
             facts = Facts(f, include_nested=False)
             for loop in [x for x in own_nodes(f.node) if isinstance(x, (ast.For, ast.AsyncFor))]:
                 lv = L.level(f, loop.iter)
-                if not lv:
+                if not lv or lv < min_level:
                     continue
                 n_sites += 1
                 tnames = set(x.id for x in ast.walk(loop.target) if isinstance(x, ast.Name))
